@@ -5,6 +5,8 @@ import PhysisModel.Model.Tera
 import PhysisModel.Spec.Tera
 import PhysisModel.Model.Layer
 import PhysisModel.Spec.Layer
+import PhysisModel.Model.Pbd
+import PhysisModel.Spec.Pbd
 namespace Physis.Driver.C16
 open Physis Physis.Proto
 
@@ -134,6 +136,50 @@ def layerCase (op a b c name : String) : Option String := do
       (some (showOutcome showGroupM (bindOutcome (Layer.writeToBuffer gm) Layer.fromExisting))))
   | _ => none
 
+/-! ### pbd -/
+
+def bone? (s : String) : Option Spec.Pbd.Bone :=
+  match s.splitOn "/" with
+  | [n, m] => do some ⟨← Bytes.ofHexFast n, ← u32List? m⟩
+  | _ => none
+
+def item? (s : String) : Option Spec.Pbd.Item :=
+  match s.splitOn ":" with
+  | [b, l, bones] => do some ⟨← u16? b, ← u16? l, ← (items "+" bones).mapM bone?⟩
+  | _ => none
+
+def link? (s : String) : Option Spec.Pbd.Link :=
+  match s.splitOn ":" with
+  | [p, f, n, d] => do some ⟨← u16? p, ← u16? f, ← u16? n, ← u16? d⟩
+  | _ => none
+
+def showBonesS (l : List Spec.Pbd.Bone) : String :=
+  join "+" (l.map fun b => Bytes.toHex b.name ++ "/" ++ join "," (b.deform.map fun w => toString w.toNat))
+def showBonesM (l : List Pbd.Bone) : String :=
+  join "+" (l.map fun b => Bytes.toHex b.name ++ "/" ++ join "," (b.deform.map fun w => toString w.toNat))
+
+def pbdCase (its lks fromS toS : String) : Option String := do
+  let f : Spec.Pbd.File := ⟨← (items ";" its).mapM item?, ← (items ";" lks).mapM link?⟩
+  let a ← u16? fromS
+  let b ← u16? toS
+  if !(decide (Spec.Pbd.WFTree f) && decide (Spec.Pbd.WFLayout f)) then none
+  let file := Spec.Pbd.encode f
+  let model := match Pbd.fromExisting file with
+    | .ok h => showOutcome showBonesM (Pbd.getDeformMatrices h a b)
+    | o => "file-" ++ showOutcome (fun _ => "") o
+  let input := s!"pbd {Bytes.toHex file} {a.toNat} {b.toNat}"
+  if a == b then pure (answer input "none" ["triv"] (some model)) else
+  match Spec.Pbd.findItem f a with
+  | none => pure (answer input "none" ["triv"] (some model))
+  | some start =>
+    if decide (Spec.Pbd.HasSibling f start) then
+      match Spec.Pbd.deformBones f start b with
+      | some bones => pure (answer input ("some " ++ showBonesS bones) [] (some model))
+      | none => none
+    else
+      -- a start node without sibling link: undocumented, left unconstrained by the property
+      pure (answer input model ["triv", "no-sibling"] (some model))
+
 /-- one case line in, one answer line out (see `Base/Proto.lean`) -/
 def handle (line : String) : String :=
   let r : Option String :=
@@ -143,6 +189,7 @@ def handle (line : String) : String :=
     | ["tera_rt", positions] => teraRoundtrip positions
     | ["tera_write", positions] => teraWriteGrid positions
     | ["tera_wany", positions] => teraWriteAny positions
+    | ["pbd", its, lks, a, b] => pbdCase its lks a b
     | [op, a, b, c, name] => layerCase op a b c name
     | _ => none
   r.getD bad
